@@ -19,10 +19,22 @@ static vbi_page PG;          /* the page under test */
 static int PG_is_cc;
 static char PG_desc[400];
 
+/* what the generator sent and asked for (evidence + signatures) */
+static struct cor_meta {
+	int station;        /* made by c16_station.h */
+	unsigned ctrl;      /* C4..C14 of the page */
+	int lv, rows, nav;  /* fetch arguments: level index 0..3, rows, navigation */
+	int flof, row24;    /* X/27/0 with "display row 24" sent; packet X/24 sent */
+	int hex;            /* page number is not decimal */
+} META;
+
 /* features observed in the fetched page (evidence + signatures) */
 static struct pg_feat {
 	int dw, dh, ds, conceal, flash, gfx, drcs, transp, semi, link, nonascii, bold_italic, underline;
+	int body_visible;     /* cells of rows 1.. that are not transparent space */
+	int row0_visible;
 } FEAT;
+static int PG_boxed;         /* newsflash / subtitle page with a visible (boxed) area */
 
 /* ---------------- coding ---------------- */
 
@@ -116,15 +128,30 @@ static void cor_row(int mag, int row, const uint8_t *d40)
 	cor_tx(p);
 }
 
-static void cor_x26(int mag, int designation, const unsigned *trip13)
+/* packet with a designation code and 13 Hamming 24/18 triplets (X/26, POP/GPOP rows 1..25) */
+static void cor_trip_packet(int mag, int packet, int designation, const unsigned *trip13)
 {
 	uint8_t p[42];
 	int i;
-	cor_addr(p, mag, 26);
+	cor_addr(p, mag, packet);
 	p[2] = cor_ham8(designation);
 	for (i = 0; i < 13; i++) cor_ham24(p + 3 + 3 * i, trip13[i]);
 	cor_tx(p);
 }
+static void cor_x26(int mag, int designation, const unsigned *trip13) { cor_trip_packet(mag, 26, designation, trip13); }
+
+/* packet with 40 Hamming 8/4 nibbles (MOT, MIP, BTT rows) */
+static void cor_nibble_row(int mag, int row, const uint8_t *n40)
+{
+	uint8_t p[42];
+	int i;
+	cor_addr(p, mag, row);
+	for (i = 0; i < 40; i++) p[2 + i] = cor_ham8(n40[i]);
+	cor_tx(p);
+}
+
+/* time filling header: terminates the page open in this magazine (parallel mode) */
+static void cor_end_page(int mag) { cor_header(mag, 0xFF, 0x3F7F, 0, NULL); }
 
 /* bit writer for X/28: 13 triplets, LSB first */
 struct cor_bits { unsigned t[13]; int n; };
@@ -201,6 +228,29 @@ static void cor_gen_row(struct vf_rng *r, uint8_t *d, int style)
 struct cor_x26gen { unsigned t[16 * 13]; int n; };
 static void cor_t(struct cor_x26gen *g, unsigned v) { if (g->n < 16 * 13 - 1) g->t[g->n++] = v; }
 
+/* one column address triplet of local enhancement data / of an object.
+ * have_drcs bit 0: global DRCS page linked, bit 1: normal DRCS page linked */
+static unsigned cor_col_triplet(struct vf_rng *r, int col, int have_drcs)
+{
+	switch ((have_drcs && vf_chance(r, 1, 3)) ? 13 : vf_below(r, 14)) {
+	case 0: return TRIP(col, 0x00, vf_below(r, 32));                       /* foreground */
+	case 1: return TRIP(col, 0x03, vf_below(r, 32));                       /* background */
+	case 2: return TRIP(col, 0x07, vf_below(r, 32));                       /* flash */
+	case 3: case 4: case 5:                                                /* display attributes */
+		return TRIP(col, 0x0C, (vf_chance(r, 1, 2) ? 0x40 : 0) | (vf_chance(r, 1, 3) ? 0x01 : 0) | (vf_below(r, 32) << 1 & 0x3E));
+	case 6: return TRIP(col, 0x09, vf_range(r, 0x20, 0x7f));               /* G0 */
+	case 7: return TRIP(col, 0x0F, vf_range(r, 0x20, 0x7f));               /* G2 */
+	case 8: return TRIP(col, vf_chance(r, 1, 2) ? 0x02 : 0x0B, vf_range(r, 0x20, 0x7f)); /* G3 */
+	case 9: return TRIP(col, 0x01, vf_range(r, 0x20, 0x7f));               /* G1 mosaic */
+	case 10: return TRIP(col, vf_range(r, 0x10, 0x1F), vf_range(r, 0x41, 0x7a)); /* diacritical */
+	case 11: return TRIP(col, 0x0E, vf_below(r, 128));                     /* font style (3.5) */
+	case 12: return TRIP(col, 0x08, vf_below(r, 88));                      /* modified G0/G2 designation */
+	default:
+		if (have_drcs) return TRIP(col, 0x0D, (((have_drcs & 2) && vf_chance(r, 1, 2)) ? 0x40 : ((have_drcs & 1) ? 0 : 0x40)) | vf_below(r, 48));
+		return TRIP(col, 0x09, vf_range(r, 0x41, 0x5a));
+	}
+}
+
 /* Local enhancement data: set-active-position + column triplets, rows ascending */
 static void cor_gen_x26(struct vf_rng *r, struct cor_x26gen *g, int have_drcs, int max_ops)
 {
@@ -215,24 +265,7 @@ static void cor_gen_x26(struct vf_rng *r, struct cor_x26gen *g, int have_drcs, i
 		else cor_t(g, TRIP(40 + (row == 24 ? 0 : row), 0x04, col));
 		if (row == 0 && col < 8) col = 8 + (int)vf_below(r, 32);
 		while (k-- > 0 && col < 40) {
-			switch ((have_drcs && vf_chance(r, 1, 3)) ? 13 : vf_below(r, 14)) {
-			case 0: cor_t(g, TRIP(col, 0x00, vf_below(r, 32))); break;                       /* foreground */
-			case 1: cor_t(g, TRIP(col, 0x03, vf_below(r, 32))); break;                       /* background */
-			case 2: cor_t(g, TRIP(col, 0x07, vf_below(r, 32))); break;                       /* flash */
-			case 3: case 4: case 5:                                                          /* display attributes */
-				cor_t(g, TRIP(col, 0x0C, (vf_chance(r, 1, 2) ? 0x40 : 0) | (vf_chance(r, 1, 3) ? 0x01 : 0) | (vf_below(r, 32) << 1 & 0x3E)));
-				break;
-			case 6: cor_t(g, TRIP(col, 0x09, vf_range(r, 0x20, 0x7f))); break;               /* G0 */
-			case 7: cor_t(g, TRIP(col, 0x0F, vf_range(r, 0x20, 0x7f))); break;               /* G2 */
-			case 8: cor_t(g, TRIP(col, vf_chance(r, 1, 2) ? 0x02 : 0x0B, vf_range(r, 0x20, 0x7f))); break; /* G3 */
-			case 9: cor_t(g, TRIP(col, 0x01, vf_range(r, 0x20, 0x7f))); break;               /* G1 mosaic */
-			case 10: cor_t(g, TRIP(col, vf_range(r, 0x10, 0x1F), vf_range(r, 0x41, 0x7a))); break; /* diacritical */
-			case 11: cor_t(g, TRIP(col, 0x0E, vf_below(r, 128))); break;                     /* font style (3.5) */
-			case 12: cor_t(g, TRIP(col, 0x08, vf_below(r, 88))); break;                      /* modified G0/G2 designation */
-			default:
-				if (have_drcs) cor_t(g, TRIP(col, 0x0D, (((have_drcs & 2) && vf_chance(r, 1, 2)) ? 0x40 : ((have_drcs & 1) ? 0 : 0x40)) | vf_below(r, 48)));
-				else cor_t(g, TRIP(col, 0x09, vf_range(r, 0x41, 0x5a)));
-			}
+			cor_t(g, cor_col_triplet(r, col, have_drcs));
 			col += vf_range(r, 0, 3);
 		}
 		row += vf_range(r, 1, 6);
@@ -268,6 +301,7 @@ static int cor_gen_ttx(struct vf_rng *r)
 	int mag8;
 
 	vf_phase("vbi_decode(teletext)");
+	memset(&META, 0, sizeof META);
 	level = levels[lv];
 	page = (int)(vf_below(r, 10) << 4 | vf_below(r, 10));
 	/* only pages with decimal numbers are Level One Pages the formatter accepts */
@@ -349,6 +383,7 @@ static int cor_gen_ttx(struct vf_rng *r)
 		for (i = 0; i < 6; i++)
 			cor_link6(p + 3 + 6 * i, mag, (int)vf_below(r, 8), (int)(vf_below(r, 10) << 4 | vf_below(r, 10)), vf_chance(r, 1, 2) ? 0x3F7F : (int)vf_below(r, 0x10));
 		p[39] = cor_ham8(vf_chance(r, 5, 6) ? 0xF : 0x7);
+		if (vbi_unham8(p[39]) & 8) META.flof = 1;
 		p[40] = 0; p[41] = 0;
 		cor_tx(p);
 	}
@@ -368,6 +403,7 @@ static int cor_gen_ttx(struct vf_rng *r)
 			if (vf_chance(r, 1, 12)) continue;     /* row not transmitted */
 			cor_gen_row(r, d, style);
 			cor_row(mag, i, d);
+			if (i == 24) META.row24 = 1;
 		}
 	}
 	cor_header(mag, 0xFF, 0x3F7F, 0, NULL);    /* time filling header terminates the page (parallel mode) */
@@ -376,6 +412,7 @@ static int cor_gen_ttx(struct vf_rng *r)
 	rows = vf_chance(r, 7, 10) ? 25 : vf_chance(r, 1, 4) ? 1 : vf_range(r, 2, 24);
 	nav = vf_chance(r, 2, 3);
 	mag8 = mag ? mag : 8;
+	META.ctrl = ctrl; META.lv = lv; META.rows = rows; META.nav = nav;
 	memset(&PG, 0, sizeof PG);
 	vf_phase("vbi_fetch_vt_page");
 	if (!vbi_fetch_vt_page(cor_dec, &PG, mag8 * 0x100 + page, vf_chance(r, 1, 2) ? VBI_ANY_SUBNO : subno, (vbi_wst_level)level, rows, nav)) {
@@ -409,6 +446,7 @@ static int cor_gen_cc(struct vf_rng *r)
 	static const unsigned pac_hi[8] = { 0x11, 0x11, 0x12, 0x12, 0x15, 0x15, 0x16, 0x16 };
 
 	vf_phase("vbi_decode(caption)");
+	memset(&META, 0, sizeof META);
 	switch (mode) {
 	case 0: cor_cc_cmd(f2, c1, 0x20); break;                           /* RCL pop-on */
 	case 1: cor_cc_cmd(f2, c1, 0x25 + vf_below(r, 3)); break;          /* RU2-4 */
@@ -461,7 +499,9 @@ static void cor_features(void)
 		if (c->unicode >= 0x80 && c->unicode < 0xE600) FEAT.nonascii++;
 		if (c->bold || c->italic) FEAT.bold_italic++;
 		if (c->underline) FEAT.underline++;
+		if (c->opacity != VBI_TRANSPARENT_SPACE && i % PG.columns < 40) { if (i >= PG.columns) FEAT.body_visible++; else FEAT.row0_visible++; }
 	}
+	PG_boxed = !PG_is_cc && (META.ctrl & 6) && FEAT.body_visible > 0;
 }
 
 #endif
